@@ -509,6 +509,11 @@ def substitute(x, table):
     return map_atoms(x, lambda a: table.get(a, Rat.atom(a)))
 
 
+def deep_substitute(x, table):
+    """Like substitute, but also inside the arguments of opaque functions / bilinear / linear atoms."""
+    return rewrite(x, lambda a, args: table.get(a))
+
+
 def coefficient_of(x, atom):
     """Coefficient Rat of the first power of `atom` in polynomial x (x must be a polynomial in that atom)."""
     x = reduce_sqrt(Rat.lift(x))
